@@ -1,6 +1,9 @@
 #!/usr/bin/env python3
 """Regenerates /verif/MANIFEST.json from the table below (kept valid at all times)."""
-import json, os, subprocess
+import json, os, subprocess, sys
+sys.path.insert(0, os.path.dirname(os.path.abspath(__file__)))
+import claims_addons
+claims_addons.apply()
 V = os.path.dirname(os.path.dirname(os.path.abspath(__file__)))
 props = [json.loads(l) for l in open(os.path.join(V, "properties.jsonl"))]
 CLAIMS = json.load(open(os.path.join(V, "tools", "claims.json")))
